@@ -240,6 +240,8 @@ def c03(res, st, std_coq, lexer_correspondence):
     cases += [(e, s) for s in gens.regression("C03") for e in ("ParseStatement", "ParseStatements", "ParseExpr")]
     report_oracle(res, "C03", cases, "an entry point panics, does not terminate or reports an untyped error")
     res.add_cases(len(cases), len(set(cases)), [gens.case_lines(cases[:1]).strip()[:200], gens.case_lines(cases[-1:]).strip()[:200]])
+    # C03_type_parser_terminates is about Parse/TypeModel.v: tie it to ParseType (the extracted model answers, never FUEL, on every input)
+    type_correspondence(res, rnd, q)
     res.cov["rule"] = ("theorems: lexer/splitter totality for all byte strings (model), escape analysis over every path of the regenerated skeleton; "
                        "correspondence: lexer outcome class and error range in both modes on all strings of <= 4/5 symbols over the 24-symbol alphabet + "
                        "samples; implementation: every entry point (with a 3 s watchdog) on corpus mutations, token soups, lists, every malformed "
